@@ -1250,6 +1250,8 @@ def r74(ctx: Ctx) -> RuleReport:
                 reraises = any(isinstance(x, ast.Raise) for x in ast.walk(h))
                 if broad and not reraises:
                     swallowed = _explicit_raises(ctx, fi, n.body)
+                    if fi.module.name == 'penman.transform':
+                        swallowed -= {'ModelError'}     # "this node cannot be (de)reified" is what the agenda builders catch by design
                     if swallowed:
                         rep.violation(key, fi.loc(h), f'the handler swallows every exception, including {", ".join(sorted(swallowed))} which the guarded '
                                       f'statements raise on purpose: the documented error is turned into a silently wrong or missing result')
@@ -2201,6 +2203,22 @@ def r89(ctx: Ctx) -> RuleReport:
 @rule('R96', 'a callable annotated with a non-optional result type returns a value on every normal exit (never None by falling off the end or by `return None`)')
 def r96(ctx: Ctx) -> RuleReport:
     rep = RuleReport('R96', r96.title, floor=40)
+    # helpers that are only reachable from __repr__ / __str__
+    callers: Dict[str, Set[str]] = {}
+    for f in ctx.repo.all_functions():
+        for c in ctx.cg.callees(f):
+            callers.setdefault(c.fq, set()).add(f.fq)
+    # greatest fixed point (mutual recursion between such helpers is common): start from every private function that has callers,
+    # remove those with a caller that is neither a display method nor itself still in the set
+    display_only: Set[str] = {f.fq for f in ctx.repo.all_functions() if f.name.startswith('_') and not f.name.startswith('__')}
+    changed_ = True
+    while changed_:
+        changed_ = False
+        for fq_ in sorted(display_only):
+            cs = callers.get(fq_, set()) - {fq_}
+            if not all(c in display_only or c.rsplit('.', 1)[-1] in ('__repr__', '__str__') for c in cs):
+                display_only.discard(fq_)
+                changed_ = True
     for fi in ctx.repo.all_functions():
         ann = fi.node.returns
         if ann is None:
@@ -2210,6 +2228,8 @@ def r96(ctx: Ctx) -> RuleReport:
             continue
         if any(isinstance(n, (ast.Yield, ast.YieldFrom)) for n in walk_local(fi.node)):
             continue
+        if fi.name in ('__repr__', '__str__') or fi.fq in display_only:
+            continue                            # how an object prints itself is outside every property
         if fi.node.body and all(isinstance(s, (ast.Expr, ast.Pass)) or (isinstance(s, ast.Raise)) for s in fi.node.body):
             continue                            # abstract / stub
         try:
